@@ -26,6 +26,14 @@ CHECKS = {
          "the round-trip clause is encode/decode fidelity, evaluated concretely, not by TLC", "TLA+ trace validation of build variants (T_Info) + concrete round-trip clause"),
  "C20": ("exploration", "the complete decision table of Encoding.tla (scheme x content-type charset x byte class x media type x root/dependency, 384 rows) is enumerated by TLC and every row is loaded through a real one-module build with seeded payloads; stored text is compared with an independent std-library decoding, original bytes must be None or byte-identical and as the table predicts, size must equal the stored text's byte length", "4.8, 7 C20",
          "the decoders themselves (encoding_rs) are trusted; this is an exhaustive exploration of a decision table, not a transition system", "TLC-enumerated decision table replayed into ModuleGraph::build"),
+ "C09": (MC, "design level: MC_FastCheck enumerates all small programs (modules, declarations, references, import aliases, star re-exports, default exports) and checks that the tracer worklist with the ImportedExports lattice as coded reaches exactly the declarative public closure for every pop order; every program is rendered and run through the real fast check and the retained declarations compared with the predicted set; seeded random workspace packages and their emitted modules are checked by TLC for the concrete clauses (re-parse, no dangling identifier, specifiers resolve, source map faithful)", "4.7, 7 C09",
+         "re-parse / source-map / dangling-identifier clauses are evaluated by the projection (parser and VLQ decoding), TLC only compares; F22 is a known finding", "TLC-enumerated programs replayed into fast check + trace validation (T_FastCheck)"),
+ "C10": (MC, "Transform.tla transcribes the emit-or-diagnostic decision table of the transform (function / arrow / variable / class member / module-level shapes, 367 shapes); TLC enumerates it, each shape is rendered as a one-declaration package, run through the real fast check and the outcome (module vs exact diagnostic codes) compared; the erasure predicate (AST walk: bodies, statements, initialisers, parameter and return types, private members, decorators) is evaluated on every emitted module of shapes and seeded random packages and checked by TLC", "4.7, 7 C10",
+         "the erasure predicate is a syntactic predicate on one output, evaluated by the projection; F19 is a known finding", "TLC-enumerated decision table replayed + trace validation of the erasure clause"),
+ "C11": (MC, "as C09 for the minimality half (nothing outside the predicted public set is retained); for random packages TLC checks per run that entrypoint export names (star re-exports expanded) are preserved, other modules export a subset, nothing new appears at top level and retained declarations keep their kind", "4.7, 7 C11",
+         "annotation text equality is not compared (DESIGN section 8)", "TLC-enumerated programs replayed + trace validation (T_FastCheck)"),
+ "C12": (MC, "histories none / none / cold / warm / edit / none / stale / warm of seeded random workspace packages (with and without declarations that need inference) run through the real fast check with a recording cache; TLC checks per run all-or-nothing per package, recorded dependencies = dependencies the emitted text declares, and against the cache-less run of the same sources: same modules emitted, same text, dependencies and source maps; repeated cache-less runs identical", "4.7, 7 C12",
+         "F8 is a known finding; histories are sampled", "TLA+ trace validation of fast-check histories (T_FastCheck)"),
  "C05": (MC, "every loader call, lockfile read and write of seeded registry + remote worlds (lockfile absent / matching / wrong, tampered bytes and manifests, stale caches, redirects, cache-only probes) is a trace event; TLC checks per call that the known checksum is presented, and at the end that rejected content is not admitted, the retry discipline, rejected checksummed redirects and exact, non-overwriting lockfile writes", "4.6, 7 C05",
          "SHA-256 values are computed by the harness and compared as tokens; F9 is a known finding", "TLA+ trace validation of loader/locker events (T_Jsr)"),
  "C06": (MC, "function level: TLC enumerates the whole bounded domain of resolve_version (registries x requirements x already-selected x cached x cutoff), proves tiers-as-coded == property statement at design level and every combination is replayed into the real function; graph level: every on_resolve event of registry-world builds is validated in order against the statement with the selections made so far", "4.6, 7 C06",
